@@ -593,6 +593,46 @@ def flow_entries():
                                               i_(t[3][1][1][0]) * 100 + i_(t[3][1][1][1]))))],
                     tags=("flow",),
                     items="#[derive(Copy, Drop)]\nenum Three { A: u8, B: (u16, u16), C }\n"))
+    # enum-to-enum maps: every assignment of result variants to input variants (identity arms,
+    # re-wrapping of the payload in another variant, payloads changed) for a 2- and a 3-variant enum
+    # whose variants carry the same payload type
+    def venum(j, payload):
+        return ("enum", j, j, {j: payload}, None)
+    import itertools
+    V3 = ["A", "B", "C"]
+    items3 = "#[derive(Copy, Drop)]\nenum Tri { A: felt252, B: felt252, C: felt252 }\n"
+    for mp in itertools.product(range(3), repeat=3):
+        arms = ", ".join(f"Tri::{V3[i]}(x) => Tri::{V3[j]}(x)" for i, j in enumerate(mp))
+        E.append(BEntry("flow_enum_map3_" + "".join(map(str, mp)), [("t", "Tri")], "Tri",
+                        f"match t {{ {arms} }}",
+                        (lambda mp: lambda t: [(True, ok(venum(mp[t[1]], t[3][t[1]])))])(mp),
+                        tags=("flow",), items=items3 if mp == (0, 0, 0) else ""))
+    V2 = ["Ok", "Err"]
+    for mp in itertools.product(range(2), repeat=2):
+        arms = ", ".join(f"{V2[i]}(x) => {V2[j]}(x)" for i, j in enumerate(mp))
+        nm = "".join(map(str, mp))
+        E.append(BEntry("flow_enum_map2_" + nm, [("r", "Result<felt252, felt252>")],
+                        "Result<felt252, felt252>", f"match r {{ {arms} }}",
+                        (lambda mp: lambda r: [(True, ok(venum(mp[r[1]], r[3][r[1]])))])(mp),
+                        tags=("flow",)))
+        E.append(BEntry("flow_enum_map2_let_" + nm, [("r", "Result<felt252, felt252>")],
+                        "Result<felt252, felt252>", f"let out = match r {{ {arms} }}; out",
+                        (lambda mp: lambda r: [(True, ok(venum(mp[r[1]], r[3][r[1]])))])(mp),
+                        tags=("flow",)))
+        arms1 = ", ".join(f"{V2[i]}(x) => {V2[j]}({'x + 1' if i == 1 else 'x'})"
+                          for i, j in enumerate(mp))
+        E.append(BEntry("flow_enum_map2_inc_" + nm, [("r", "Result<felt252, felt252>")],
+                        "Result<felt252, felt252>", f"match r {{ {arms1} }}",
+                        (lambda mp: lambda r: [(True, ok(venum(
+                            mp[r[1]], r[3][r[1]] if r[1] == 0 else vint((i_(r[3][1]) + 1) % P))))])(mp),
+                        tags=("flow",)))
+    E.append(BEntry("flow_enum_map_opt_pair", [("o", "Option<(u8, u8)>")], "Result<(u8, u8), ()>",
+                    "match o { Some(p) => Ok(p), None => Err(()) }",
+                    lambda o: [(True, ok(venum(o[1], o[3][o[1]])))], tags=("flow",)))
+    E.append(BEntry("flow_enum_map_swap_pair", [("r", "Result<(u8, u8), (u8, u8)>")],
+                    "Result<(u8, u8), (u8, u8)>",
+                    "match r { Ok(p) => Err(p), Err(p) => Ok(p) }",
+                    lambda r: [(True, ok(venum(1 - r[1], r[3][r[1]])))], tags=("flow",)))
     E.append(BEntry("flow_return_in_match", [("o", "Option<u8>"), ("d", "u8")], "u8",
                     "let v = match o { Some(v) => v, None => { return d; } }; if v == d { return 7; } "
                     "v",
@@ -617,6 +657,53 @@ def flow_entries():
                     "if i == 1 { x = In2 { m: x.n, n: x.m }; } i += 1; } (x.m, x.n)",
                     lambda s: [(True, ok(vtuple(vint((2 * i_(s)) % P), vint((3 * i_(s)) % P))))],
                     tags=("flow",)))
+    return E
+
+
+EDGE_HEADER = BI_HEADER + """use core::ops::range::internal::int_range_try_new;
+"""
+
+
+def edge_entries():
+    """Instantiations just beyond what the Sierra specialisation accepts. On the unchanged tree the
+    compiler rejects them (each is compiled alone; a rejection is recorded, not an error). If a
+    change makes one of them acceptable it is analysed like any other function, so an unsound
+    widening of a libfunc's domain is caught by C02 / C03."""
+    E = []
+    B = 2**128
+
+    def add(name, params, ret, body, items=""):
+        E.append(BEntry(name, params, ret, body, None, tags=("edge",), items=items))
+    for nm, (lo, hi) in (("a", (0, B)), ("b", (-1, B - 1)), ("c", (5, B + 5)), ("d", (0, B - 1))):
+        t = bi(lo, hi)
+        add(f"edge_range_try_new_{nm}", [("s", t), ("e", t)], "felt252",
+            "match int_range_try_new(s, e) { Ok(_) => 1, Err(_) => 0 }")
+    add("edge_downcast_from_wide", [("x", bi(0, 2**200))], "Option<u8>", "downcast(x)")
+    add("edge_downcast_to_wide", [("x", "felt252")], f"Option<{bi(0, B)}>", "downcast(x)")
+    add("edge_downcast_to_lim", [("x", "felt252")],
+        f"Option<{bi(0, P % (2**128 - 1))}>", "downcast(x)")
+    for j, ((a, b), (c, d)) in enumerate([((0, B + 7), (1, B)), ((0, 2**100), (1, B + 2)),
+                                          ((0, 2**250), (2**125, B)), ((0, B), (1, B))]):
+        ta, tb = bi(a, b), bi(c, d)
+        qt, rt = bi(a // d, b // c), bi(0, d - 1)
+        add(f"edge_div_rem_{j}", [("x", ta), ("y", f"NonZero<{tb}>")], f"({qt}, {rt})",
+            "bounded_int::div_rem(x, y)",
+            items=f"impl ED{j} of DivRemHelper<{ta}, {tb}> {{ type DivT = {qt}; type RemT = {rt}; }}\n")
+    for j, ((a, b), bd) in enumerate([((0, 2**200), B), ((-B, B), 0), ((0, B), 1)]):
+        ta = bi(a, b)
+        lt, ht = bi(a, bd - 1), bi(bd, b)
+        add(f"edge_constrain_{j}", [("x", ta)], f"Result<{lt}, {ht}>",
+            f"bounded_int::constrain::<{ta}, {bd}>(x)",
+            items=f"impl EC{j} of ConstrainHelper<{ta}, {bd}> {{ type LowT = {lt}; type HighT = {ht}; }}\n")
+    half = P // 2
+    add("edge_add_wraps", [("x", bi(0, half)), ("y", bi(0, half + 5))], bi(0, 2 * half + 5),
+        "bounded_int::add(x, y)",
+        items=f"impl EA0 of AddHelper<{bi(0, half)}, {bi(0, half + 5)}> {{ type Result = {bi(0, 2 * half + 5)}; }}\n")
+    add("edge_mul_wraps", [("x", bi(0, 2**130)), ("y", bi(0, 2**130))], bi(0, 2**260),
+        "bounded_int::mul(x, y)",
+        items=f"impl EM0 of MulHelper<{bi(0, 2**130)}, {bi(0, 2**130)}> {{ type Result = {bi(0, 2**260)}; }}\n")
+    add("edge_trim_wrong", [("x", bi(0, 255))], f"OptionRev<{bi(2, 255)}>", "bounded_int::trim_min(x)",
+        items=f"impl ET0 of TrimMinHelper<{bi(0, 255)}> {{ type Target = {bi(2, 255)}; }}\n")
     return E
 
 
@@ -656,6 +743,7 @@ EXTRA_FAMILIES = {
     "bounded": bounded_entries, "plumb": plumbing_entries, "gas": gas_entries,
     "hash": hash_entries, "gen": gen_entries, "spec": specialization_entries,
     "fold": fold_entries, "bigap": bigap_entries, "flow": flow_entries,
+    "edge": edge_entries,
 }
 import gen as _gen
-EXTRA_HEADERS = {"flow": FLOW_HEADER, "spec": SPEC_HEADER, "gen": _gen.PRELUDE, "bounded": BI_HEADER, "plumb": PLUMB_HEADER, "gas": GAS_HEADER, "hash": HASH_HEADER}
+EXTRA_HEADERS = {"edge": EDGE_HEADER, "flow": FLOW_HEADER, "spec": SPEC_HEADER, "gen": _gen.PRELUDE, "bounded": BI_HEADER, "plumb": PLUMB_HEADER, "gas": GAS_HEADER, "hash": HASH_HEADER}
